@@ -23,7 +23,7 @@ package log
 //@   returns r
 //@   ensures [fresh] r != nil && fresh(r)
 //@   ensures [tz] {C11} r.timeDiff == tzStr(time_off(t))
-//@   ensures [fields] {C11} r.recType == recType && string(r.from) == string(from) && string(r.to) == string(to) && r.name == name && r.email == email && r.unixtime == fmtd(time_unix(t), 0) && r.message == ite(contains(message, "\n"), splitHead(message, "\n"), message)
+//@   ensures [fields] {C11,C03} r.recType == recType && string(r.from) == string(from) && string(r.to) == string(to) && r.name == name && r.email == email && r.unixtime == fmtd(time_unix(t), 0) && r.message == ite(contains(message, "\n"), splitHead(message, "\n"), message)
 
 //@ func record.String
 //@   returns str
